@@ -113,6 +113,10 @@ class Evaluator:
                     return l - r
                 if isinstance(e.op, ast.Mult):
                     return l * r
+                if isinstance(e.op, ast.FloorDiv) and isinstance(l, int) and isinstance(r, int) and r != 0:
+                    return l // r
+                if isinstance(e.op, ast.Mod) and isinstance(l, int) and isinstance(r, int) and r != 0:
+                    return l % r
             except Exception:
                 return UNKNOWN
             return UNKNOWN
